@@ -1007,6 +1007,33 @@ class Ref:
         finally:
             self.row = saved
 
+    def c_unpivot(self, node, ds):
+        """DS[unpivot Id_new, Me_new]: one datapoint per (datapoint, measure) whose measure value is not null; Id_new holds the measure's
+        name, Me_new its value.  Attributes are dropped (viral attributes are outside the oracle here)."""
+        new_id, new_me = node.children[0].value, node.children[1].value
+        meas = ds.measures()
+        if not meas:
+            raise Unsupported("oracle: unpivot without measures")
+        if self.virals(ds):
+            raise Unsupported("oracle: unpivot with viral attributes")
+        types = {ds.comp(m)[1] for m in meas}
+        if len(types) != 1 and types != {"Integer", "Number"}:
+            raise Unsupported("oracle: unpivot of measures of different types")
+        ty = "Number" if len(types) > 1 else next(iter(types))
+        ids = ds.ids()
+        comps = [ds.comp(i) for i in ids] + [(new_id, "String", "Identifier"), (new_me, ty, "Measure")]
+        rows = []
+        for r in ds.rows:
+            for k, m in enumerate(meas):
+                v = r.cols[m]
+                if ty == "Number":
+                    v = as_kind(v, "real")
+                cols = {i: r.cols[i] for i in ids}
+                cols[new_id] = lit(m)
+                cols[new_me] = v
+                rows.append(Row(z3.And(r.present, z3.Not(v.null)), cols, r.ord + [z3.IntVal(k)]))
+        return RDS(comps, rows)
+
     def c_filter(self, node, ds):
         rows = []
         for r in ds.rows:
